@@ -38,14 +38,16 @@ def main():
             res = {}
             for pid in pids:
                 t0 = time.time()
-                r = sh([os.path.join(HERE, "check"), pid, "--tier", os.environ.get("VERIF_TIER", "quick")],
+                r = sh([os.path.join(HERE, "check"), pid, "--tier", os.environ.get("VERIF_TIER", "quick")] +
+                       (["--no-prove"] if os.environ.get("VERIF_NOPROVE") else []),
                        cwd=HERE, env=dict(os.environ, VERIF_REPO=WT))
                 viol = [l for l in r.stdout.splitlines() if l.startswith("VIOLATION")]
                 res[pid] = {"exit": r.returncode, "violation_line": viol[-1] if viol else None,
                             "first_report": [l for l in r.stdout.splitlines() if l.startswith("  [")][:3],
                             "wall_s": round(time.time() - t0, 1)}
             caught = any(v["exit"] == 1 and v["violation_line"] for v in res.values())
-            json.dump({"caught": caught, "checks": res}, open(os.path.join(d, "result.json"), "w"), indent=1)
+            if not os.environ.get("VERIF_NOPROVE"):
+                json.dump({"caught": caught, "checks": res}, open(os.path.join(d, "result.json"), "w"), indent=1)
             rows.append((name, "CAUGHT" if caught else "MISSED",
                          "; ".join("%s:%s%s" % (p, v["exit"], " nfi" if v["violation_line"] and "no-failing-input-found" in v["violation_line"] else "") for p, v in res.items())))
     finally:
